@@ -9,6 +9,7 @@ CONSTANTS
   MaxOps = 1
   HasUpper = TRUE
   Known = {}
+  AsFound = {}
   UpperTypes = {"none", "file", "dir", "odir", "wh"}
   LowerTypes = {"none", "file", "dir", "odir", "wh", "sym"}
 INVARIANTS LoadAgrees LiveIsView StatusAgrees RestartSame LowersFrozen
